@@ -418,8 +418,15 @@ def arguments(draw, ctx, symbolic=None, allow_arrays=True, allow_lists=True, max
     nkw = draw(st.integers(0, max_kw))
     whole = [n for n, (t, r, c, sym) in ctx.arrays.items() if allow_arrays]
     pos = []
+    plain = sorted(n for n, (t, r, c, sym) in ctx.arrays.items() if allow_arrays and not sym)
     for _ in range(npos):
-        if whole and draw(st.integers(0, 5)) == 0:
+        if plain and draw(st.integers(0, 9)) == 0:
+            # elementwise sum / difference of two equally shaped arrays (possibly the same one twice)
+            a = draw(st.sampled_from(plain))
+            same = [n for n in plain if ctx.arrays[n][1:3] == ctx.arrays[a][1:3]]
+            b = draw(st.sampled_from(same))
+            pos.append(A.Flat([A.Operand("", A.Var(a)), A.Operand("", A.Var(b))], [draw(st.sampled_from(["+", "-"]))]))
+        elif whole and draw(st.integers(0, 5)) == 0:
             pos.append(F1(A.Var(draw(st.sampled_from(whole)))))
         else:
             pos.append(draw(plain_value(ctx, symbolic=symbolic)))
